@@ -149,11 +149,14 @@ def trace_chunk(chk, tier, idx, path, coverage=False):
     return res, done[0]["n"], mism
 
 
-def corrupt_selftest(chk, trace_path, work):
-    """DESIGN §4.4(a): a corrupted trace must be rejected, at exactly the corrupted records."""
+def corrupt_selftest(chk, trace_path, work, already_bad=()):
+    """DESIGN §4.4(a): a corrupted trace must be rejected, at exactly the corrupted records.  Records the trace
+    specification already rejected in the real run (`already_bad`, 0-based: violations, reported as such) are not used."""
     recs = C.read_ndjson(trace_path)
     pick = {}
     for i, r in enumerate(recs):
+        if i in already_bad:
+            continue
         kinds = []
         if r["t"] == "int2" and r["rs"][0]["r"]["k"] == "int":
             kinds.append("int_value")
@@ -273,6 +276,7 @@ def run(tier):
                                 "observed_cells": [{"form": x["f"], "got": decode(x["r"])} for x in r["cells"]],
                                 "record": r})
         if first_trace is None:
+            first_bad = {m["i"] - 1 for m in mism}
             first_trace = path
         if thorough and c == chunks - 1:
             zero = [a for a in res.coverage_zero()]
@@ -281,7 +285,7 @@ def run(tier):
     for need in ("int2", "int1", "float2", "float2/arith", "float1"):
         if not kinds.get(need):
             raise C.ToolError("vacuity: the recorded trace has no %s record" % need)
-    st = corrupt_selftest(chk, first_trace, work)
+    st = corrupt_selftest(chk, first_trace, work, first_bad)
     chk.add_tlc("Trace_Arith[selftest]", st, "corrupted trace: every corrupted record and only those rejected")
 
     # ---- evidence
